@@ -273,3 +273,117 @@ def replay_poke(vals, kind):
         if got != exp:
             return {'case': {'poke_spec': spec, 'is128': is128}, 'diffs': [('memory after poke %s' % spec, 'differs from the cells named by the spec', '')]}
     return {'case': {}, 'diffs': []}
+
+
+# ---------------------------------------------------------------------------
+# snapshot.move: which cells are copied where
+class SliceRef:
+    def __init__(self, obj, lo, hi):
+        self.obj = obj
+        self.lo = lo
+        self.hi = hi
+
+
+class MoveEngine(Engine):
+    """Slices of memories are kept as (object, lo, hi); a slice assignment is recorded as one copy event."""
+
+    def getitem(self, base, idx, node):
+        if isinstance(base, SymMem) and isinstance(idx, tuple) and idx and idx[0] == 'symslice':
+            return SliceRef(base, idx[1], idx[2])
+        if isinstance(base, SymMem) and isinstance(idx, slice):
+            return SliceRef(base, idx.start, idx.stop)
+        return super().getitem(base, idx, node)
+
+    def setitem(self, base, idx, v, node):
+        if isinstance(base, SymMem) and (isinstance(idx, slice) or (isinstance(idx, tuple) and idx and idx[0] == 'symslice')):
+            lo, hi = (idx.start, idx.stop) if isinstance(idx, slice) else (idx[1], idx[2])
+            if not isinstance(v, SliceRef):
+                self.oblige('copy_source_is_a_memory_slice', False, node)
+                return
+            self.path.copies.append((base, lo, hi, v.obj, v.lo, v.hi))
+            return
+        return super().setitem(base, idx, v, node)
+
+
+def check_move(rep, prop='C09'):
+    """snapshot.move(snapshot, 'P:S,L,Q:D') for symbolic P, S, L, Q, D: exactly one block copy happens, of L cells,
+    from offset S % 0x4000 of bank P % 8 to offset D % 0x4000 of bank Q % 8 (bank P % 8 when no destination page is given);
+    without page prefixes: from address S to address D of the 64K memory. The real function parses the spec string; the
+    integer parser get_int_param is abstracted (returns the value the placeholder stands for)."""
+    import skoolkit.snapshot as S
+    W = poly.W
+    for form, spec in (('no pages', 'S,L,D'), ('source page', 'P:S,L,D'), ('both pages', 'P:S,L,Q:D')):
+        name = 'skoolkit.snapshot.move[%s]' % form
+
+        def start(eng, form=form, spec=spec):
+            p = eng.path
+            p.copies = []
+            p.P = SV(z3.BitVec('src_page', W), 0, 255)
+            p.Q = SV(z3.BitVec('dest_page', W), 0, 255)
+            p.S = SV(z3.BitVec('src', W), 0, 65535)
+            p.D = SV(z3.BitVec('dest', W), 0, 65535)
+            p.L = SV(z3.BitVec('length', W), 0, 65536)
+            for x in (p.P, p.Q, p.S, p.D, p.L):
+                p.facts.append(z3.And(x.t >= x.lo, x.t <= x.hi))
+            vals = {'P': p.P, 'Q': p.Q, 'S': p.S, 'D': p.D, 'L': p.L}
+            eng.call_models[id(S.get_int_param)] = lambda e, a, k, n: vals[a[0]]
+            if form == 'no pages':
+                p.mem = SymMem('mem')
+                snapshot = p.mem
+            else:
+                p.banks = [SymMem('bank%d' % b, size=0x4000) for b in range(8)]
+                snapshot = ObjModel(None, name='memory')
+                snapshot.attrs['banks'] = SymList(list(p.banks), 'banks')
+            eng.call_function(S.move, [snapshot, spec])
+
+        def post(p, prove, form=form):
+            prove('post.one_copy', len(p.copies) == 1)
+            if len(p.copies) != 1:
+                return
+            dst, dlo, dhi, src, slo, shi = p.copies[0]
+            if form == 'no pages':
+                prove('post.objects', dst is p.mem and src is p.mem)
+                prove('post.source_range', and_(cmpop('==', slo, p.S), cmpop('==', shi, p.S + p.L)))
+                prove('post.dest_range', and_(cmpop('==', dlo, p.D), cmpop('==', dhi, p.D + p.L)))
+                return
+            si = p.banks.index(src) if src in p.banks else None
+            di = p.banks.index(dst) if dst in p.banks else None
+            prove('post.objects_are_banks', si is not None and di is not None)
+            if si is None or di is None:
+                return
+            prove('post.source_bank', cmpop('==', p.P % 8, si))
+            prove('post.dest_bank', cmpop('==', (p.Q if form == 'both pages' else p.P) % 8, di))
+            prove('post.source_range', and_(cmpop('==', slo, p.S % 0x4000), cmpop('==', shi, p.S % 0x4000 + p.L)))
+            prove('post.dest_range', and_(cmpop('==', dlo, p.D % 0x4000), cmpop('==', dhi, p.D % 0x4000 + p.L)))
+        eng = MoveEngine(inline_ok=lambda f: f.__module__ == 'skoolkit.snapshot' and f.__name__ == '_get_page', unknown_ok=True)
+        FuncVC(rep, prop, S.move, name, eng).run(start, post, replay_move)
+    rep.assume('move: Python slice assignment copies the cells of the source slice into the destination slice (list semantics; ranges reaching beyond the end of a bank / of memory change the length of the list - outside the documented use); get_int_param abstracted')
+
+
+def replay_move(vals, kind):
+    import skoolkit.snapshot as S
+    rnd = random.Random(3)
+    for t in range(400):
+        if t == 0:
+            P, Q = vals.get('src_page', 1), vals.get('dest_page', 0)
+        else:
+            P, Q = rnd.randrange(10), rnd.randrange(10)
+        s, d, ln = rnd.randrange(0, 65000), rnd.randrange(0, 65000), rnd.randrange(0, 40)
+        if s % 0x4000 + ln > 0x4000 or d % 0x4000 + ln > 0x4000:
+            continue
+        for form in (0, 1, 2):
+            m = S.Memory(snapshot=[rnd.randrange(256) for _ in range(0x20000)], page=rnd.randrange(8))
+            before = [list(b) for b in m.banks]
+            exp = [list(b) for b in before]
+            if form == 0:
+                continue
+            spec = ('%d:%d,%d,%d' % (P, s, ln, d)) if form == 1 else ('%d:%d,%d,%d:%d' % (P, s, ln, Q, d))
+            db = (P if form == 1 else Q) % 8
+            data = before[P % 8][s % 0x4000:s % 0x4000 + ln]
+            exp[db][d % 0x4000:d % 0x4000 + ln] = data
+            S.move(m, spec)
+            got = [list(b) for b in m.banks]
+            if got != exp:
+                bad = [(b, o) for b in range(8) for o in range(0x4000) if got[b][o] != exp[b][o]][:4]
+                return {'case': {'move_spec': spec}, 'diffs': [('banks after move %s' % spec, bad, 'cells named by the spec')]}
+    return {'case': {}, 'diffs': []}
